@@ -225,6 +225,50 @@ def variants():
     ]
 
 
+def param_history_variants():
+    """equal effective initial parameters with different object history must hash equal"""
+    from nanite import model
+    def fresh():
+        return model.models_available["hertz_para"].get_parameter_defaults()
+    a = fresh()
+    a["E"].value = 4321.0            # attribute assignment (lmfit keeps a stale init_value)
+    b_ = fresh()
+    b_["E"].set(value=4321.0)
+    c = fresh()
+    c["E"].set(value=1.0)
+    c["E"].set(value=4321.0)
+    d = fresh()
+    d["E"].set(value=4321.0)
+    d["E"].stderr = 12.5             # bookkeeping of a previous fit
+    d["E"].correl = {"contact_point": 0.3}
+    d["contact_point"].init_value = 7.0
+    return [("params attr-assignment vs set()", {"params_initial": a}, {"params_initial": b_}),
+            ("params set twice", {"params_initial": c}, {"params_initial": b_}),
+            ("params with fit bookkeeping", {"params_initial": d}, {"params_initial": b_})]
+
+
+def close_values():
+    """per numeric setting: values that differ only far behind the leading digits"""
+    from nanite import model
+    def par(**edits):
+        p = model.models_available["hertz_para"].get_parameter_defaults()
+        for k, v in edits.items():
+            name, attr = k.split("__")
+            p[name].set(**{attr: v})
+        return p
+    nx = np.nextafter
+    return {
+        "range_x": [[-1.49832779e-6, 1e-6], [-1.49832773e-6, 1e-6], [nx(-1.49832779e-6, 0), 1e-6]],
+        "weight_cp": [1e-6, 1.0000004e-6, nx(1e-6, 1)],
+        "gcf_k": [0.5, 0.5000001, nx(0.5, 1)],
+        "optimal_fit_num_samples+edelta": [2000000, 2000001],
+        "method_kws": [{"ftol": 1e-9}, {"ftol": 1.0000003e-9}, {"max_nfev": 2000000}, {"max_nfev": 2000001}],
+        "params_initial": [par(E__value=2000.0), par(E__value=2000.001), par(E__value=nx(2000.0, 3000)),
+                           par(contact_point__min=-1.2345678e-6), par(contact_point__min=-1.2345681e-6),
+                           par(E__max=1e9), par(E__max=1e9 + 1)],
+    }
+
+
 def must_differ_extra():
     return [
         ("nsamples matters when search on", {"optimal_fit_edelta": True, "optimal_fit_num_samples": 10},
@@ -249,7 +293,22 @@ def oracle(ctx, idnt):
                               f"settings {key}={vals[i]!r} and {key}={vals[j]!r} have the same hash",
                               {"input": {"key": key, "values": [repr(vals[i]), repr(vals[j])]},
                                "observed": a})
-    for name, k1, k2 in variants():
+    for key, vals in close_values().items():
+        hs = []
+        for v in vals:
+            kw = {"optimal_fit_num_samples": v, "optimal_fit_edelta": True} \
+                if key.endswith("+edelta") else {key: copy.deepcopy(v)}
+            hs.append(fitter_hash(idnt, kw)[0])
+        for (i, a), (j, b_) in itertools.combinations(enumerate(hs), 2):
+            ctx.case({"oracle": "close", "key": key, "i": i, "j": j}, nontrivial=f"c:{key}:{i}:{j}",
+                     bucket="oracle=close-values")
+            if a == b_ and not a.startswith("err:"):
+                ctx.violation(f"collision-close:{key}:{i}:{j}",
+                              f"{key}: two values differing behind the 6th significant digit have the "
+                              f"same hash ({vals[i]!r} vs {vals[j]!r})",
+                              {"input": {"key": key, "values": [repr(vals[i]), repr(vals[j])]},
+                               "observed": a})
+    for name, k1, k2 in variants() + param_history_variants():
         h1, _, _ = fitter_hash(idnt, copy.deepcopy(k1))
         h2, _, _ = fitter_hash(idnt, copy.deepcopy(k2))
         ctx.case({"oracle": "variant", "name": name}, nontrivial="v:" + name, bucket="oracle=variants")
